@@ -266,6 +266,65 @@ def extra_drive(p, rng):
     p.call('Grid.to_dict', g.to_dict)
     p.call('Grid.interpolate', g.interpolate, GR.Grid('h', ncols=10, nrows=8, cellsize=0.5))
     p.call('Grid.apply', g.apply, np.abs)
+    p.call('Grid.same_geometry', g.same_geometry, GR.Grid('h', ncols=5, nrows=4, cellsize=1.0))
+    # gsmooth: float64 / float32 / integer-valued grids with gaps (NaN), cells below minval, with and without an integer mask
+    gd = nr.normal(size=(12, 14)) + 3.0
+    gaps = gd.copy(); gaps[2, 3] = np.nan; gaps[7:9, 10] = np.nan; gaps[0, 0] = np.nan
+    mk = GR.Grid('mask', ncols=14, nrows=12, cellsize=1.0, dtype=np.int32)
+    md = np.ones((12, 14), dtype=np.int32); md[:, :2] = 0; md[5, 6] = 0
+    mk.data = md
+    for vn, dat, dt in (('f64', gd, np.float64), ('f64 gaps', gaps, np.float64), ('f32 gaps', gaps.astype(np.float32), np.float32)):
+        gg = GR.Grid('s', ncols=14, nrows=12, cellsize=1.0, dtype=dt)
+        gg.data = dat.astype(dt)
+        p.call('grid.gsmooth|' + vn, GR.gsmooth, gg, None, 10, 1.0)
+        p.call('grid.gsmooth|%s mask' % vn, GR.gsmooth, gg, mk, 10, 1.0)
+        p.call('grid.gsmooth|%s minval' % vn, GR.gsmooth, gg, None, 10, 1.0, 2.5)
+    # catchment accessors
+    fdg = GR.Grid('fd', ncols=4, nrows=4, cellsize=1.0, dtype=np.int64)
+    fdg.data = np.array([[2, 4, 8, 4], [1, 4, 8, 4], [1, 2, 4, 8], [1, 1, 0, 16]], dtype=np.int64)
+    ca = GR.Catchment('ca', fdg)
+    ca.delineate_area(14)
+    p.call('Catchment.isin', ca.isin, 10)
+    try:
+        ca.delineate_boundary()
+    except Exception:
+        pass
+    fig, ax = plt.subplots()
+    p.call('Grid.plot', g.plot, ax)
+    p.call('Grid.plot_values', g.plot_values, ax)
+    p.call('Catchment.plot_area', ca.plot_area, ax)
+    p.call('Catchment.plot_boundary', ca.plot_boundary, ax)
+    # remaining array-taking helpers of the stat / data / plot packages
+    for vn in ('c', 'strided', 'int', 'series'):
+        x = variants[vn]; xf = np.asarray(x, dtype=float)
+        p.call('dutils.cast|' + vn, D.cast, x, xf * 1.5)
+        p.call('putils.scattercat|' + vn, P.scattercat, ax, x, xf[::-1].copy(), xf ** 2)
+        p.call('putils.bivarnplot|' + vn, P.bivarnplot, ax, np.column_stack([xf, xf[::-1] ** 2]) if vn != 'strided' else np.column_stack([xf, xf[::-1] ** 2, xf])[:, ::2])
+    p.call('putils.cov_ellipse', P.cov_ellipse, np.array([0.5, 1.0]), np.array([[1.0, 0.2], [0.2, 2.0]]))
+    p.call('putils.cov_ellipse|int', P.cov_ellipse, np.array([1, 2]), np.array([[2, 0], [0, 3]]))
+    p.call('putils.colors2cmap', P.colors2cmap, ['r', 'g', 'b'])
+    p.call('putils.cmap2colors', P.cmap2colors, 5)
+    p.call('sutils.ppos', S.ppos, 7, 0.3)
+    p.call('boxplot.compute_percentiles', B.compute_percentiles, 80)
+    bx = B.Boxplot(dfp); p.call('Boxplot.draw', bx.draw, ax)
+    vl = V.Violin(dfp); p.call('Violin.draw', vl.draw, ax)
+    plt.close('all')
+    for nm in T.__all__:
+        tr = T.get_transform(nm)
+        for c in tr.constants.names:
+            tr.constants[c] = 3.0
+        p.call('transform.%s.params_logprior' % nm, tr.params_logprior)
+        p.call('transform.%s.params_sample' % nm, tr.params_sample, 20)
+        if nm != 'Softmax':
+            for vn in ('c', 'strided', 'series'):
+                p.call('transform.%s.backward_censored|%s' % (nm, vn), tr.backward_censored, np.asarray(variants[vn], dtype=float) - 1.5 if vn != 'series' else variants[vn] - 1.5, 0.1)
+    vec = D.__dict__.get('Vector')
+    from hydrodiy.data.containers import Vector
+    vv = Vector(['a', 'b'], [0.5, 1.0], [0.0, 0.0], [2.0, 2.0])
+    p.call('Vector.to_series', vv.to_series)
+    p.call('Catchment.to_dict', ca.to_dict)
+    p.call('Catchment.clone', ca.clone)
+    p.call('Catchment.extent', ca.extent)
 
 
 def monitors_child(rec):
@@ -285,9 +344,33 @@ def monitors_child(rec):
         except Exception:
             crashed = 'drive %s crashed: %s' % (drv.__name__, traceback.format_exc()[-1500:])
             rec.broken.append(crashed)
+    # inventory of the public API (functions and public methods defined in the library's modules): what the audit never called is listed
+    # in the evidence (coverage gap stated, not hidden)
+    import importlib, inspect
+    inventory = set()
+    for mn in ('hydrodiy.data.dutils', 'hydrodiy.data.qualitycontrol', 'hydrodiy.data.signatures', 'hydrodiy.data.containers', 'hydrodiy.stat.metrics',
+               'hydrodiy.stat.sutils', 'hydrodiy.stat.armodels', 'hydrodiy.stat.transform', 'hydrodiy.gis.grid', 'hydrodiy.gis.gutils',
+               'hydrodiy.io.csv', 'hydrodiy.io.hyruns', 'hydrodiy.io.iutils', 'hydrodiy.plot.putils', 'hydrodiy.plot.boxplot', 'hydrodiy.plot.violinplot'):
+        try:
+            mod = importlib.import_module(mn)
+        except Exception:
+            continue
+        short = mn.split('.')[-1]
+        for nm, ob in vars(mod).items():
+            if nm.startswith('_') or getattr(ob, '__module__', None) != mn:
+                continue
+            if inspect.isfunction(ob):
+                inventory.add('%s.%s' % (short, nm))
+            elif inspect.isclass(ob):
+                for mnm, mob in vars(ob).items():
+                    if not mnm.startswith('_') and inspect.isfunction(mob):
+                        inventory.add('%s.%s' % (nm, mnm))
+    called = set(p.labels)
+    called_tail = {c.split('.')[-1] for c in called}
+    not_audited = sorted(f for f in inventory if f not in called and f.split('.')[-1] not in called_tail)
     rec.bounded_clause('every argument of every API call bit-for-bit unchanged (values, dtype, shape; cell values of grid arguments); two consecutive calls with the same seed return the same result',
                        '%d API functions, %d calls audited, %d repeated pairs compared (boundary drive + explicit list: strided / Fortran / integer / float32 / pandas inputs, transforms, plots)' % (len(p.labels), p.audited, p.repeat),
-                       p.audited, p.repeat, False, failures=p.bad, extra=dict(api_functions=sorted(p.labels)))
+                       p.audited, p.repeat, False, failures=p.bad, extra=dict(api_functions=sorted(p.labels), public_api_never_called_by_the_audit=not_audited))
 
 
 def run(tier):
